@@ -49,6 +49,7 @@ void* va_realloc(void*, size_t);
 void va_free(void*);
 bool va_is_live(const void* p);
 size_t va_block_size(const void* p);
+long va_block_id(const void* p); /* serial number of the live block at p, -1 if none */
 /* event ring: compact record of allocator events since va_events_clear() */
 void va_events_clear(void);
 void va_events_json(const char* key); /* ,"key":[["M",id,size8],["R",old,new,size8],["F",id],["X",kind,size8]...] */
